@@ -1,21 +1,22 @@
-//! The generic history driver: `run_history::<T, N, U>`.
+//! The history driver.
+//!
+//! `run_history::<T, N, U>` is the per-configuration entry point; it only builds the
+//! configuration's constructor table (`Cfg<T, N, U>`) and hands over to `run_core::<T>`, which
+//! is generic over the element type alone (see `coll.rs` for why).
 
+use crate::coll::{Boxed, Cfg, DynColl, Factory, Len};
 use crate::elem::{err, hex_or_dot, opt_val, val, vals, Elem, Map};
 use crate::obs::{self, hash_hex, BIG};
 use crate::ops::{parse_op, Op};
 use milhouse::builder::Builder;
 use milhouse::level_iter::LevelNode;
-use milhouse::{Arc, Error, List, Tree, Vector};
-use ssz::{Decode, Encode};
+use milhouse::{Arc, Error, Tree};
 use std::collections::{HashMap, HashSet};
-use std::convert::TryFrom;
 use std::fmt::Write as _;
 use std::io::Write;
-use std::ops::ControlFlow;
 use std::panic::{catch_unwind, AssertUnwindSafe};
 use std::sync::Barrier;
-use tree_hash::{Hash256, TreeHash};
-use typenum::Unsigned;
+use tree_hash::Hash256;
 
 /// Upper bound on the number of threads `par_hash` / `par_mix` will spawn.
 pub const MAX_THREADS: usize = 64;
@@ -27,70 +28,6 @@ pub const MAX_VECMAP_KEY: usize = 65536;
 const BADREG: &str = "err:badreg";
 const NOBUILDER: &str = "err:nobuilder";
 const PENDING: &str = "err:pending";
-
-pub trait Len: Unsigned + Send + Sync + 'static {}
-impl<N: Unsigned + Send + Sync + 'static> Len for N {}
-
-pub enum Coll<T: Elem, N: Len, U: Map<T>> {
-    L(List<T, N, U>),
-    V(Vector<T, N, U>),
-}
-
-/// Evaluate the same expression on whichever collection the register holds.
-macro_rules! both {
-    ($c:expr, $x:ident => $e:expr) => {
-        match $c {
-            Coll::L($x) => $e,
-            Coll::V($x) => $e,
-        }
-    };
-}
-
-impl<T: Elem, N: Len, U: Map<T>> Clone for Coll<T, N, U> {
-    fn clone(&self) -> Self {
-        match self {
-            Coll::L(x) => Coll::L(x.clone()),
-            Coll::V(x) => Coll::V(x.clone()),
-        }
-    }
-}
-
-impl<T: Elem, N: Len, U: Map<T>> Coll<T, N, U> {
-    /// Backing tree, backing length (vector: `N`), backing depth.
-    fn backing(&self) -> (&Arc<Tree<T>>, usize, usize) {
-        match self {
-            Coll::L(x) => x.verif_backing(),
-            Coll::V(x) => {
-                let (tree, depth) = x.verif_backing();
-                (tree, N::to_usize(), depth)
-            }
-        }
-    }
-
-    fn updates(&self) -> &U {
-        both!(self, x => x.verif_updates())
-    }
-
-    fn len(&self) -> usize {
-        both!(self, x => x.len())
-    }
-
-    fn pending(&self) -> bool {
-        both!(self, x => x.has_pending_updates())
-    }
-
-    fn root(&self) -> Hash256 {
-        both!(self, x => x.tree_hash_root())
-    }
-
-    fn set(&mut self, i: usize, v: T) -> bool {
-        both!(self, x => x.get_mut(i).map(|r| *r = v).is_some())
-    }
-
-    fn apply(&mut self) -> Result<(), Error> {
-        both!(self, x => x.apply_updates())
-    }
-}
 
 fn unit(r: Result<(), Error>) -> String {
     match r {
@@ -110,26 +47,6 @@ fn join<I: IntoIterator<Item = String>>(items: I, sep: &str, empty: &str) -> Str
     } else {
         v.join(sep)
     }
-}
-
-/// `upd=` and `max=` payloads of the `S` line. Generic over `(T, U)` only.
-fn upd_fields<T: Elem, U: Map<T>>(u: &U) -> (String, String) {
-    let mut s = String::new();
-    let _: Result<(), ()> = u.for_each_range(0, usize::MAX, |i, v| {
-        if !s.is_empty() {
-            s.push(',');
-        }
-        let _ = write!(s, "{}:{}", i, val(v));
-        ControlFlow::Continue(Ok(()))
-    });
-    if s.is_empty() {
-        s.push('-');
-    }
-    let max = match u.max_index() {
-        Some(m) => m.to_string(),
-        None => "none".to_string(),
-    };
-    (s, max)
 }
 
 /// The `inc=` oracle of `b_finish`: is `tree` equal to the tree built incrementally from its own
@@ -155,8 +72,9 @@ fn incremental_eq<T: Elem>(tree: &Arc<Tree<T>>, depth: usize) -> String {
     r.unwrap_or("panic").to_string()
 }
 
-struct State<T: Elem, N: Len, U: Map<T>> {
-    regs: [Option<Coll<T, N, U>>; 8],
+struct State<'f, T: Elem> {
+    cfg: &'f dyn Factory<T>,
+    regs: [Option<Boxed<T>>; 8],
     builder: Option<Builder<T>>,
     /// Roots of every register after the previous operation (kept alive so that addresses are
     /// not reused while counting fresh nodes).
@@ -165,9 +83,10 @@ struct State<T: Elem, N: Len, U: Map<T>> {
     prev_set: HashSet<usize>,
 }
 
-impl<T: Elem, N: Len, U: Map<T>> State<T, N, U> {
-    fn new() -> Self {
+impl<'f, T: Elem> State<'f, T> {
+    fn new(cfg: &'f dyn Factory<T>) -> Self {
         State {
+            cfg,
             regs: [None, None, None, None, None, None, None, None],
             builder: None,
             prev_roots: Vec::new(),
@@ -175,23 +94,25 @@ impl<T: Elem, N: Len, U: Map<T>> State<T, N, U> {
         }
     }
 
-    fn put_list(&mut self, d: usize, r: Result<List<T, N, U>, Error>) -> String {
+    /// Store the result of a constructor: a failing constructor leaves `d` unchanged.
+    fn put(&mut self, d: usize, r: Result<Boxed<T>, Error>) -> String {
         match r {
-            Ok(l) => {
-                self.regs[d] = Some(Coll::L(l));
+            Ok(c) => {
+                self.regs[d] = Some(c);
                 "ok".to_string()
             }
             Err(e) => err(&e),
         }
     }
 
-    fn put_vec(&mut self, d: usize, r: Result<Vector<T, N, U>, Error>) -> String {
+    /// Same for constructors whose error is rendered as a fixed word.
+    fn put_opt(&mut self, d: usize, r: Option<Boxed<T>>, failure: &str) -> String {
         match r {
-            Ok(v) => {
-                self.regs[d] = Some(Coll::V(v));
+            Some(c) => {
+                self.regs[d] = Some(c);
                 "ok".to_string()
             }
-            Err(e) => err(&e),
+            None => failure.to_string(),
         }
     }
 
@@ -207,56 +128,43 @@ impl<T: Elem, N: Len, U: Map<T>> State<T, N, U> {
 
     /// Execute one operation, returning the result payload of its `R` line.
     fn exec(&mut self, op: &Op<T>) -> String {
-        // Source register holding any collection.
+        // Source register holding any collection (`&mut dyn DynColl<T>`).
         macro_rules! src {
             ($a:expr) => {
                 match &mut self.regs[*$a] {
-                    Some(c) => c,
+                    Some(c) => &mut **c,
                     None => return BADREG.to_string(),
                 }
             };
         }
-        // Source register that must hold a list.
-        macro_rules! src_list {
-            ($a:expr) => {
-                match &mut self.regs[*$a] {
-                    Some(Coll::L(l)) => l,
-                    _ => return BADREG.to_string(),
+        // Result of a List-only / Vector-only / same-kind method: `None` = wrong kind.
+        macro_rules! kind {
+            ($e:expr) => {
+                match $e {
+                    Some(r) => r,
+                    None => return BADREG.to_string(),
                 }
             };
         }
 
+        let cfg = self.cfg;
         match op {
-            Op::NewList(d, vs) => self.put_list(*d, List::new(vs.clone())),
-            Op::NewVec(d, vs) => self.put_vec(*d, Vector::new(vs.clone())),
-            Op::ListSlow(d, vs) => self.put_list(*d, List::try_from_iter_slow(vs.clone())),
-            Op::VecIter(d, vs) => self.put_vec(*d, Vector::try_from_iter(vs.clone())),
-            Op::Empty(d) => self.put_list(*d, Ok(List::empty())),
-            Op::Repeat(d, v, n) => self.put_list(*d, List::repeat(v.clone(), *n)),
-            Op::RepeatSlow(d, v, n) => self.put_list(*d, List::repeat_slow(v.clone(), *n)),
-            Op::FromElem(d, v) => self.put_vec(*d, Vector::from_elem(v.clone())),
-            Op::DefaultVec(d) => self.put_vec(*d, Ok(Vector::default())),
-            Op::SszList(d, bytes) => match List::<T, N, U>::from_ssz_bytes(bytes) {
-                Ok(l) => self.put_list(*d, Ok(l)),
-                Err(_) => "err:decode".to_string(),
-            },
-            Op::SszVec(d, bytes) => match Vector::<T, N, U>::from_ssz_bytes(bytes) {
-                Ok(v) => self.put_vec(*d, Ok(v)),
-                Err(_) => "err:decode".to_string(),
-            },
-            Op::SerdeList(d, vs) => match serde_json::from_value::<List<T, N, U>>(json_array(vs)) {
-                Ok(l) => self.put_list(*d, Ok(l)),
-                Err(_) => "err:serde".to_string(),
-            },
-            Op::SerdeVec(d, vs) => {
-                match serde_json::from_value::<Vector<T, N, U>>(json_array(vs)) {
-                    Ok(v) => self.put_vec(*d, Ok(v)),
-                    Err(_) => "err:serde".to_string(),
-                }
-            }
+            Op::NewList(d, vs) => self.put(*d, cfg.new_list(vs.clone())),
+            Op::NewVec(d, vs) => self.put(*d, cfg.new_vec(vs.clone())),
+            Op::ListSlow(d, vs) => self.put(*d, cfg.list_slow(vs.clone())),
+            Op::VecIter(d, vs) => self.put(*d, cfg.vec_iter(vs.clone())),
+            Op::Empty(d) => self.put(*d, Ok(cfg.empty())),
+            Op::Repeat(d, v, n) => self.put(*d, cfg.repeat(v.clone(), *n)),
+            Op::RepeatSlow(d, v, n) => self.put(*d, cfg.repeat_slow(v.clone(), *n)),
+            Op::FromElem(d, v) => self.put(*d, cfg.from_elem(v.clone())),
+            Op::DefaultVec(d) => self.put(*d, Ok(cfg.default_vec())),
+            Op::SszList(d, bytes) => self.put_opt(*d, cfg.ssz_list(bytes), "err:decode"),
+            Op::SszVec(d, bytes) => self.put_opt(*d, cfg.ssz_vec(bytes), "err:decode"),
+            Op::SerdeList(d, vs) => self.put_opt(*d, cfg.serde_list(json_array(vs)), "err:serde"),
+            Op::SerdeVec(d, vs) => self.put_opt(*d, cfg.serde_vec(json_array(vs)), "err:serde"),
             Op::Get(a, i) => {
                 let c = src!(a);
-                both!(c, x => format!("ok:{}", opt_val(x.get(*i))))
+                format!("ok:{}", opt_val(c.get(*i)))
             }
             Op::Len(a) => {
                 let c = src!(a);
@@ -264,13 +172,13 @@ impl<T: Elem, N: Len, U: Map<T>> State<T, N, U> {
             }
             Op::IterFrom(a, i) => {
                 let c = src!(a);
-                both!(c, x => match x.iter_from(*i) {
+                match c.iter_from(*i) {
                     Err(e) => err(&e),
                     Ok(mut it) => {
                         let mut hints = Vec::new();
                         let mut seen = Vec::new();
                         loop {
-                            hints.push(ExactSizeIterator::len(&it).to_string());
+                            hints.push(it.len().to_string());
                             match it.next() {
                                 Some(v) => seen.push(v),
                                 None => break,
@@ -278,11 +186,11 @@ impl<T: Elem, N: Len, U: Map<T>> State<T, N, U> {
                         }
                         format!("ok:{}|{}", vals(seen), hints.join(","))
                     }
-                })
+                }
             }
             Op::LevelIter(a, i) => {
-                let l = src_list!(a);
-                match l.level_iter_from(*i) {
+                let c = src!(a);
+                match kind!(c.level_iter_from(*i)) {
                     Err(e) => err(&e),
                     Ok(it) => {
                         let items = it.map(|node| match node {
@@ -297,23 +205,18 @@ impl<T: Elem, N: Len, U: Map<T>> State<T, N, U> {
                 }
             }
             Op::Eq(a, b) => match (&self.regs[*a], &self.regs[*b]) {
-                (Some(Coll::L(x)), Some(Coll::L(y))) => format!("ok:{}", x == y),
-                (Some(Coll::V(x)), Some(Coll::V(y))) => format!("ok:{}", x == y),
+                (Some(x), Some(y)) => format!("ok:{}", kind!(x.eq_dyn(&**y))),
                 _ => BADREG.to_string(),
             },
             Op::SszEnc(a) => {
                 let c = src!(a);
-                both!(c, x => {
-                    let bytes = x.as_ssz_bytes();
-                    let len = x.ssz_bytes_len();
-                    format!("ok:{}|{}", hex_or_dot(&bytes), len)
-                })
+                let (bytes, len) = c.ssz();
+                format!("ok:{}|{}", hex_or_dot(&bytes), len)
             }
             Op::SerdeSer(a) => {
                 let c = src!(a);
-                let value = both!(c, x => serde_json::to_value(&*x));
-                match value {
-                    Ok(serde_json::Value::Array(items)) => {
+                match c.to_json() {
+                    Some(serde_json::Value::Array(items)) => {
                         let mut back = Vec::with_capacity(items.len());
                         for item in items {
                             match serde_json::from_value::<T>(item) {
@@ -328,22 +231,20 @@ impl<T: Elem, N: Len, U: Map<T>> State<T, N, U> {
             }
             Op::Set(a, i, v) => {
                 let c = src!(a);
-                some_none(c.set(*i, v.clone()))
+                some_none(c.get_mut(*i).map(|x| *x = v.clone()).is_some())
             }
             Op::Touch(a, i) => {
                 let c = src!(a);
-                both!(c, x => some_none(x.get_mut(*i).is_some()))
+                some_none(c.get_mut(*i).is_some())
             }
             Op::CowRead(a, i) => {
                 let c = src!(a);
-                both!(c, x => {
-                    let got = x.get_cow(*i).map(|cow| (*cow).clone());
-                    format!("ok:{}", opt_val(got.as_ref()))
-                })
+                let got = c.get_cow(*i).map(|cow| (*cow).clone());
+                format!("ok:{}", opt_val(got.as_ref()))
             }
             Op::CowInto(a, i, v) => {
                 let c = src!(a);
-                both!(c, x => match x.get_cow(*i) {
+                match c.get_cow(*i) {
                     None => some_none(false),
                     Some(cow) => match cow.into_mut() {
                         Ok(r) => {
@@ -352,11 +253,11 @@ impl<T: Elem, N: Len, U: Map<T>> State<T, N, U> {
                         }
                         Err(e) => err(&e),
                     },
-                })
+                }
             }
             Op::CowMake(a, i, v) => {
                 let c = src!(a);
-                both!(c, x => match x.get_cow(*i) {
+                match c.get_cow(*i) {
                     None => some_none(false),
                     Some(mut cow) => match cow.make_mut() {
                         Ok(r) => {
@@ -365,11 +266,11 @@ impl<T: Elem, N: Len, U: Map<T>> State<T, N, U> {
                         }
                         Err(e) => err(&e),
                     },
-                })
+                }
             }
             Op::CowMake2(a, i, v, w) => {
                 let c = src!(a);
-                both!(c, x => match x.get_cow(*i) {
+                match c.get_cow(*i) {
                     None => some_none(false),
                     Some(mut cow) => {
                         match cow.make_mut() {
@@ -382,107 +283,85 @@ impl<T: Elem, N: Len, U: Map<T>> State<T, N, U> {
                         }
                         some_none(true)
                     }
-                })
+                }
             }
             Op::IterCow(a, items) => {
-                let l = src_list!(a);
-                let mut it = l.iter_cow();
-                let mut count = 0usize;
-                for item in items {
-                    if let Some((_, cow)) = it.next_cow() {
-                        count += 1;
-                        if let Some(v) = item {
-                            match cow.into_mut() {
-                                Ok(r) => *r = v.clone(),
-                                Err(e) => return err(&e),
-                            }
-                        }
-                    }
+                let c = src!(a);
+                match kind!(c.iter_cow(items)) {
+                    Ok(count) => format!("ok:{count}"),
+                    Err(e) => err(&e),
                 }
-                format!("ok:{count}")
             }
             Op::Push(a, v) => {
-                let l = src_list!(a);
-                unit(l.push(v.clone()))
+                let c = src!(a);
+                unit(kind!(c.push(v.clone())))
             }
             Op::Bulk(a, pairs) => {
-                let l = src_list!(a);
-                if U::VEC_BACKED && pairs.iter().any(|(i, _)| *i >= MAX_VECMAP_KEY) {
+                let c = src!(a);
+                if c.tag() != 'L' {
                     return BADREG.to_string();
                 }
-                let mut m = U::default();
-                for (i, v) in pairs {
-                    m.insert(*i, v.clone());
+                if c.vec_backed() && pairs.iter().any(|(i, _)| *i >= MAX_VECMAP_KEY) {
+                    return BADREG.to_string();
                 }
-                unit(l.bulk_update(m))
+                unit(kind!(c.bulk(pairs)))
             }
             Op::Apply(a) => {
                 let c = src!(a);
                 unit(c.apply())
             }
             Op::PopFront(a, n) => {
-                let l = src_list!(a);
-                unit(l.pop_front(*n))
+                let c = src!(a);
+                unit(kind!(c.pop_front(*n)))
             }
             Op::PopFrontSlow(a, n) => {
-                let l = src_list!(a);
-                unit(l.pop_front_slow(*n))
+                let c = src!(a);
+                unit(kind!(c.pop_front_slow(*n)))
             }
             Op::Clone(a, b) => {
                 let copy = match &self.regs[*a] {
-                    Some(c) => c.clone(),
+                    Some(c) => c.clone_box(),
                     None => return BADREG.to_string(),
                 };
                 self.regs[*b] = Some(copy);
                 "ok".to_string()
             }
             Op::ToVector(a, b) => {
-                let copy = match &self.regs[*a] {
-                    Some(Coll::L(l)) => l.clone(),
-                    _ => return BADREG.to_string(),
-                };
-                self.put_vec(*b, Vector::try_from(copy))
+                let r = kind!(src!(a).to_vector());
+                self.put(*b, r)
             }
             Op::ToList(a, b) => {
-                let copy = match &self.regs[*a] {
-                    Some(Coll::V(v)) => v.clone(),
-                    _ => return BADREG.to_string(),
-                };
-                self.put_list(*b, Ok(List::from(copy)))
+                let r = kind!(src!(a).to_list());
+                self.put(*b, Ok(r))
             }
             Op::RebaseOn(a, b) => {
                 // `a.rebase_on(&a)` cannot be written with a single register; a clone shares the
                 // same root `Arc`, so it is observationally the same base.
-                let base_copy;
                 let mut target = self.regs[*a].take();
+                let base_copy;
                 let base = if a == b {
-                    base_copy = target.clone();
+                    base_copy = target.as_ref().map(|c| c.clone_box());
                     &base_copy
                 } else {
                     &self.regs[*b]
                 };
                 let r = match (&mut target, base) {
-                    (Some(Coll::L(x)), Some(Coll::L(y))) => unit(x.rebase_on(y)),
-                    (Some(Coll::V(x)), Some(Coll::V(y))) => unit(x.rebase_on(y)),
-                    _ => BADREG.to_string(),
+                    (Some(x), Some(y)) => x.rebase_on_dyn(&**y).map(unit),
+                    _ => None,
                 };
                 self.regs[*a] = target;
-                r
+                r.unwrap_or_else(|| BADREG.to_string())
             }
-            Op::Rebase(a, b, c) => match (&self.regs[*a], &self.regs[*b]) {
-                (Some(Coll::L(x)), Some(Coll::L(y))) => {
-                    let r = x.rebase(y);
-                    self.put_list(*c, r)
-                }
-                (Some(Coll::V(x)), Some(Coll::V(y))) => {
-                    let r = x.rebase(y);
-                    self.put_vec(*c, r)
-                }
-                _ => BADREG.to_string(),
-            },
+            Op::Rebase(a, b, c) => {
+                let r = match (&self.regs[*a], &self.regs[*b]) {
+                    (Some(x), Some(y)) => kind!(x.rebase_dyn(&**y)),
+                    _ => return BADREG.to_string(),
+                };
+                self.put(*c, r)
+            }
             Op::Intra(a) => {
                 let c = src!(a);
-                both!(c, x => unit(x.intra_rebase()))
+                unit(c.intra())
             }
             Op::Hash(a) => {
                 let c = src!(a);
@@ -587,17 +466,14 @@ impl<T: Elem, N: Len, U: Map<T>> State<T, N, U> {
             let Some(c) = reg else { continue };
 
             // O: public API only.
-            let (tag, len, empty, pend) = match c {
-                Coll::L(x) => ('L', x.len(), x.is_empty(), x.has_pending_updates()),
-                Coll::V(x) => ('V', x.len(), x.is_empty(), x.has_pending_updates()),
-            };
+            let (tag, len, empty, pend) = (c.tag(), c.len(), c.is_empty(), c.pending());
             let (vals_s, gets_s) = if len > BIG {
                 ("big".to_string(), "big".to_string())
             } else {
-                both!(c, x => (
-                    vals(x.iter()),
-                    join((0..=len + 1).map(|j| opt_val(x.get(j))), ",", "-"),
-                ))
+                (
+                    vals(c.iter()),
+                    join((0..=len + 1).map(|j| opt_val(c.get(j))), ",", "-"),
+                )
             };
             let _ = writeln!(
                 out,
@@ -607,7 +483,7 @@ impl<T: Elem, N: Len, U: Map<T>> State<T, N, U> {
 
             // S, M, I: verif accessors.
             let (tree, blen, depth) = c.backing();
-            let (upd, max) = upd_fields::<T, U>(c.updates());
+            let (upd, max) = c.upd_fields();
             let dump = obs::dump_or_big(tree, blen);
             let _ = writeln!(
                 out,
@@ -645,7 +521,7 @@ fn json_array<T: Elem>(vs: &[T]) -> serde_json::Value {
     )
 }
 
-fn par_hash<T: Elem, N: Len, U: Map<T>>(c: &Coll<T, N, U>, k: usize) -> String {
+fn par_hash<T: Elem>(c: &dyn DynColl<T>, k: usize) -> String {
     let barrier = Barrier::new(k);
     let roots: Vec<Option<Hash256>> = std::thread::scope(|s| {
         let handles: Vec<_> = (0..k)
@@ -675,7 +551,7 @@ fn par_hash<T: Elem, N: Len, U: Map<T>>(c: &Coll<T, N, U>, k: usize) -> String {
     }
 }
 
-fn par_mix<T: Elem, N: Len, U: Map<T>>(c: &Coll<T, N, U>, vs: &[T]) -> String {
+fn par_mix<T: Elem>(c: &dyn DynColl<T>, vs: &[T]) -> String {
     let k = vs.len();
     let barrier = Barrier::new(k + 1);
     let (workers, own): (Vec<Option<Result<Hash256, Error>>>, Option<Hash256>) =
@@ -685,11 +561,13 @@ fn par_mix<T: Elem, N: Len, U: Map<T>>(c: &Coll<T, N, U>, vs: &[T]) -> String {
                 .map(|j| {
                     s.spawn(move || {
                         barrier.wait();
-                        catch_unwind(AssertUnwindSafe(|| {
-                            let mut x = c.clone();
+                        catch_unwind(AssertUnwindSafe(|| -> Result<Hash256, Error> {
+                            let mut x = c.clone_box();
                             let len = x.len();
                             if len > 0 {
-                                x.set(j % len, vs[j].clone());
+                                if let Some(slot) = x.get_mut(j % len) {
+                                    *slot = vs[j].clone();
+                                }
                                 x.apply()?;
                             }
                             Ok(x.root())
@@ -721,25 +599,27 @@ fn par_mix<T: Elem, N: Len, U: Map<T>>(c: &Coll<T, N, U>, vs: &[T]) -> String {
     format!("ok:{}", parts.join(","))
 }
 
-/// Run one history (the operation lines following a `config` line) and write its trace, without
-/// the `H` line, to `out`. `Err` means the history text is unparsable.
-pub fn run_history<T: Elem, N: Len, U: Map<T>>(
+/// Element-type-generic core of `run_history`.
+fn run_core<T: Elem>(
+    cfg: &dyn Factory<T>,
     ops: &[String],
-    out: &mut impl Write,
+    out: &mut dyn Write,
 ) -> Result<(), String> {
     let parsed: Vec<Op<T>> = ops
         .iter()
         .map(|line| parse_op::<T>(line).map_err(|e| format!("{e} in `{line}`")))
         .collect::<Result<_, _>>()?;
 
-    let mut st = State::<T, N, U>::new();
+    let mut st = State::<T>::new(cfg);
     let mut buf = String::new();
     for (k, op) in parsed.iter().enumerate() {
         let n = k + 1;
         buf.clear();
+        crate::isolate::progress(n);
         match catch_unwind(AssertUnwindSafe(|| st.exec(op))) {
             Err(_) => {
                 let _ = writeln!(out, "R {n} panic");
+                let _ = out.flush();
                 return Ok(());
             }
             Ok(payload) => {
@@ -748,6 +628,9 @@ pub fn run_history<T: Elem, N: Len, U: Map<T>>(
         }
         let observed = catch_unwind(AssertUnwindSafe(|| st.observe(&mut buf)));
         let _ = out.write_all(buf.as_bytes());
+        // One flush per operation: if the process dies in a later operation (abort on allocation
+        // failure, kill on timeout) the trace on disk is complete up to this point.
+        let _ = out.flush();
         if observed.is_err() {
             // Not part of FORMAT.md: observing the registers panicked (only possible when the
             // crate left a register in a broken state). Flag it and abandon the history.
@@ -759,4 +642,14 @@ pub fn run_history<T: Elem, N: Len, U: Map<T>>(
         }
     }
     Ok(())
+}
+
+/// Run one history (the operation lines following a `config` line) under configuration
+/// `(T, N, U)` and write its trace, without the `H` line, to `out`. `Err` means the history text
+/// is unparsable.
+pub fn run_history<T: Elem, N: Len, U: Map<T>>(
+    ops: &[String],
+    out: &mut impl Write,
+) -> Result<(), String> {
+    run_core::<T>(&Cfg::<T, N, U>::new(), ops, out)
 }
